@@ -304,19 +304,26 @@ class TextFormat:
         number_format = ''.join(
             t.token for t in tokenized.tokens if t.type == self.TokenType.NUMBER)
         thousands = self.thousands_format if tokenized.thousands else ''
+        left_num_format, _, right_num_format = number_format.partition('.')
+        decimals = len(right_num_format)
+
+        # the zeros a format asks for are grouped as well: 0,000 -> 0,012
+        zeros = len(left_num_format.lstrip('#')) if thousands else 0
+        if zeros:
+            width = zeros + (zeros - 1) // 3 + (decimals + 1 if decimals else 0)
+            thousands = f'0{width}{thousands}'
 
         with decimal.localcontext() as ctx:
             ctx.rounding = decimal.ROUND_HALF_UP
             if tokenized.decimal:
-                left_num_format, right_num_format = number_format.split('.', 1)
-                decimals = len(right_num_format)
                 left_side, _, right_side = \
                     f'{number_value:{thousands}.{decimals}f}'.partition('.')
                 right_side = right_side.rstrip('0')
             else:
                 left_side = f'{number_value:{thousands}.0f}'
                 right_side = None
-        left_side = left_side.lstrip('0')
+        if not zeros:
+            left_side = left_side.lstrip('0')
 
         tokens_iter = iter(tokenized.tokens)
         left_side_tokens = tuple(it.takewhile(lambda t: t.token != '.', tokens_iter))
